@@ -824,6 +824,6 @@ pub fn property() -> Property {
             "DfsPostOrder::move_to is only exercised after the previous phase ran to exhaustion",
         ],
         both_profiles: false,
-        subs: vec![sub("traversal/walkers+dfsvisit", 300_000, 6_000_000, strategy, run)],
+        subs: vec![sub("traversal/walkers+dfsvisit", 3_000_000, 60_000_000, strategy, run)],
     }
 }
